@@ -194,8 +194,10 @@ class C10(core.Check):
         "byte-encoding mode utf8 / wide / narrow, over C11's str_util model Model/Width.v, imported read-only); every "
         "bytes stream (utf-8, euc-jp, big5, gbk, uhc, euc-kr, latin-1) goes through model + oracle",
         "wide / narrow theorems: well-formed double-byte text (single bytes < 0x80, lead 0x81..0xFF + trail 0x40..0x7E / "
-        "0x80..0xFF) and ASCII keys; a non-ASCII key is inserted as UTF-8 bytes by the code whatever the byte encoding: "
-        "proposed KNOWN finding C10-bytes-key-utf8 (the model mirrors the code; the oracle demands the terminal encoding)",
+        "0x80..0xFF) and ASCII keys; (historic: a non-ASCII key used to be inserted as UTF-8 bytes whatever the byte encoding) "
+        "fixed by e68a774 (keys arrive as key.encode(get_encoding(), 'replace'); that encoder is data sent to the model for "
+        "the wide / narrow codecs, computed in the model for utf8); characters of three or more bytes under a 'wide' codec "
+        "(EUC-JP JIS X 0212, EUC-TW) are outside urwid's double-byte model (set_encoding: 'JISX 0208 only') and are not generated",
         "pos_on_char_boundary_inv: initial caption/text are UTF-8 encodings of scalar values and the offset is on a "
         "character boundary; layouts carried by up/down/home/end/click cut the displayed text at character boundaries "
         "(lay_bnd; counted on real layouts in the evidence: hyp:bytes-layout-*); set_edit_pos arguments designate a "
@@ -255,8 +257,9 @@ class C10(core.Check):
                   "layout events under the boundary hypothesis), wide_keys_simulate_reference / "
                   "narrow_keys_simulate_reference (left/right/backspace/delete = one whole character, ASCII keys and enter "
                   "inserted at the cursor), bytes_pos_inv (any mode, ANY bytes: 0 <= offset <= len).  Tied by the per-event "
-                  "correspondence on every bytes stream (exhaustive boundary-character scopes + random); a non-ASCII key "
-                  "under a non-UTF-8 byte encoding is a proposed known finding (inserted as UTF-8 bytes).")
+                  "correspondence on every bytes stream (exhaustive boundary-character scopes + random); typed non-ASCII "
+                  "and unencodable keys included (wide_any_key_inserts_its_characters, narrow_any_key_inserts_its_bytes; the "
+                  "codec's output for a key is data).")
     level_note = ("Trusted: Coq kernel, extraction + OCaml driver, the hand-written model Model/Edit.v (tied to the code by "
                   "an exact per-event comparison of text, offset, return value, signals with their arguments and the text "
                   "at emission time, pref_col_maxcol and _shift_view_to_cursor), the layout / width / str.upper data taken "
@@ -447,6 +450,11 @@ class C10(core.Check):
             l.append(len(chars))
             for c in chars:
                 l += [ord(c), wcwidth.wcwidth(c)]
+            # key.encode(get_encoding(), "replace") as data for the double-byte / single-byte codecs
+            keys = sorted({st[1] for st in case["steps"] if st[0] == "key" and st[1] not in NAMED}) if sel != 100 else []
+            l.append(len(keys))
+            for k in keys:
+                l += enc_list(cps(k)) + enc_list(list(k.encode(enc, "replace")))
             return l + self._encode_events(case, lays)
         from urwid import str_util
         v = case["variant"]
@@ -599,18 +607,6 @@ class C10(core.Check):
             if ob.get("layout_exc"):
                 msgs.append(f"{tag}: laying out the displayed text at width {w} raised {ob['layout_exc']}")
                 return msgs
-            # ---- bytes mode, a printable key that is not ASCII: the character must arrive in the byte encoding
-            if (isb and enc != "utf-8" and kind == "key" and st[1] not in NAMED and not st[1].isascii()
-                    and so["ret"] == ["handled"]):
-                try:
-                    want = list(st[1].encode(enc))
-                except UnicodeEncodeError:
-                    want = None
-                got_utf8 = t[:p] + list(st[1].encode("utf-8")) + t[p:]
-                if want is not None and nt == got_utf8 and nt != t[:p] + want + t[p:]:
-                    msgs.append(f"{tag}: a printable key is inserted as its UTF-8 bytes {bytes(st[1].encode('utf-8'))!r}, "
-                                f"not as the character in the byte encoding {enc} ({bytes(want)!r})")
-                    return msgs
             # ---- offset range / character boundary (pos_inv)
             if not (0 <= np_ <= len(nt)):
                 msgs.append(f"{tag}: offset {np_} outside 0..{len(nt)}")
@@ -782,10 +778,8 @@ class C10(core.Check):
         def unit(c):      # one character as the text's element type (bytes mode: in the byte encoding)
             if not isb:
                 return cps(c)
-            try:
-                return list(c.encode(enc))
-            except UnicodeEncodeError:
-                return list(c.encode("utf-8"))
+            # the typed characters in the terminal's byte encoding; what it cannot represent shows as "?"
+            return list(c.encode(enc, "replace"))
 
         def prev_char(tb, q):
             if not isb:
@@ -1222,15 +1216,18 @@ class C10(core.Check):
     def bytes_case(self, rng, enc):
         if enc == "utf-8":
             chars = ["a", "b", " ", WIDE, ACC, COMB, ASTRAL, ASTRAL2, ASTRAL]      # 1, 2, 3 and 4 byte characters
-            keych = ["a", " ", WIDE, ACC, ASTRAL]
+            keych = ["a", " ", WIDE, ACC, ASTRAL, "\ud800"]       # a lone surrogate cannot be encoded: b"?"
         elif enc in WIDE_ENCS:
             # ASCII whose byte values lie in the low trail-byte range, and two-byte characters at every
             # boundary of the encoding's lead/trail ranges
             chars = ["a", " ", "@", "~", "\\", "A"] + wide_alphabet(enc) * 2
-            keych = ["a", " ", "@", "~", "a", " "] + wide_alphabet(enc)[:2]
+            # the last two: mostly b"?"; urwid's double-byte mode knows one- and two-byte characters only
+            # (util.set_encoding: "euc-jp  # JISX 0208 only"): no three-byte EUC characters
+            keych = [k for k in ["a", " ", "@", "~", "a", " "] + wide_alphabet(enc)[:2] + [ASTRAL, ACC]
+                     if len(k.encode(enc, "replace")) <= 2]
         else:
             chars = ["a", " ", ACC, "b"]
-            keych = ["a", " ", "b", ACC]
+            keych = ["a", " ", "b", ACC, WIDE, "\u20ac"]            # the last two are not latin-1: b"?"
         n = rng.choice([0, 1, 2, 3, 5, 8])
         text = "".join(rng.choice(chars + ["\n"]) for _ in range(n))
         w = rng.randint(1, 9)
